@@ -424,3 +424,25 @@ SPECS["C11"]["harness"].append({"component": "limiter", "args": ["--part", "fil"
 # constructor parity or a correspondence breaks in the real constructors / socket tasks
 for _p in ("C03", "C04", "C09", "C10", "C12", "C13", "C14", "C17", "C20"):
     SPECS[_p]["harness"].append({"component": "e2e", "args": ["--focus", _p.lower()], "quick": 24, "thorough": 120, "correspondence": False})
+
+# trusted-base sentences of the round-4 runs, per property that has them
+_TB_RUN = {
+    "glue": "configuration plumbing: Model/Config.v transcribes ConfigBuilder (24 setters, build) and what Discv5::new / Discv5::start hand on, by hand; tied to the code by the `glue` run - real ConfigBuilder, Discv5::new (table probed through a clone, global permit/ban list read through the hook verif::glue::permit_ban_counts), Discv5::start on real loopback UDP sockets, where the real Service::spawn and Handler::spawn record the Config they are handed (hook verif::glue::seen, two reporting statements); fields not modelled: executor, listen_config; fn-pointer table filters are identified by probing",
+    "e2e": "end-to-end run (monitor-only, no model): two or three real nodes on loopback UDP sockets in real time on a multi-thread runtime; only lower bounds and 5 s upper bounds are asserted; it is the search for a concrete failing input behind the constructor-parity obligation, not a proof obligation itself",
+    "inb": "receive path: Model/Limiter.v recv_inbound (source normalisation, exemption lookup per socket address, the two filter passes, Packet::src_id) is compared with the real RecvHandler::handle_inbound driven through the virtual handler (hooks RecvHandler::verif_new / verif_handle_inbound); the forwarded source address is observed through the handler's who-are-you query / unrecognized-frame report",
+}
+for _p in SPECS:
+    for _h in SPECS[_p]["harness"]:
+        _k = "inb" if (_h["component"] == "limiter" and "inb" in _h.get("args", [])) else _h["component"]
+        if _k in _TB_RUN and _TB_RUN[_k] not in SPECS[_p]["trusted_base"]:
+            SPECS[_p]["trusted_base"] = list(SPECS[_p]["trusted_base"]) + [_TB_RUN[_k]]
+for _p in SPECS:
+    _comps = {_h["component"] for _h in SPECS[_p]["harness"]}
+    if "hnd" in _comps:
+        for _t in HND_TB:
+            if _t not in SPECS[_p]["trusted_base"]:
+                SPECS[_p]["trusted_base"] = list(SPECS[_p]["trusted_base"]) + [_t]
+    if "service" in _comps:
+        for _t in SVC_TB:
+            if _t not in SPECS[_p]["trusted_base"]:
+                SPECS[_p]["trusted_base"] = list(SPECS[_p]["trusted_base"]) + [_t]
